@@ -96,12 +96,15 @@ struct Dec {
     // the library's own round trip: decode(encode(d) ++ sibling) == d, stream at the end of the box
     self_ok: bool,
     self_pos: u64,
+    // the same bytes decoded through a stream that transfers fewer bytes per call than requested
+    split_ok: bool,
 }
 
 fn run<T>(bytes: &[u8], with_sibling: bool) -> Dec
 where
     T: Debug + PartialEq + Mp4Box,
     T: for<'a> ReadBox<&'a mut Cursor<Vec<u8>>>,
+    T: for<'a> ReadBox<&'a mut crate::streams::Ctl<Cursor<Vec<u8>>>>,
     T: for<'a> WriteBox<&'a mut Vec<u8>>,
 {
     let mut input = bytes.to_vec();
@@ -109,7 +112,7 @@ where
         input.extend_from_slice(&SIBLING);
     }
     let mut d = Dec { res: "ok", msg: String::new(), dbg: Value::Null, pos: 0, reenc_res: "skipped", reenc: vec![], ret: 0, box_size: 0, fix: false,
-        hdr_type: 0, self_ok: false, self_pos: 0 };
+        hdr_type: 0, self_ok: false, self_pos: 0, split_ok: false };
     let mut c = Cursor::new(input);
     let mut ht = 0u32;
     let r = guarded(|| {
@@ -133,6 +136,23 @@ where
         }
     };
     d.dbg = dbg::parse(&format!("{:?}", val));
+    d.split_ok = true;
+    for (seed, max_chunk) in [(0x1234_5678_9ABC_DEF1u64, 1usize), (0x0F0F_1234_5555_AAA1, 7), (0x7777_1234_5555_AAA3, 300)] {
+        let mut cs = crate::streams::Ctl::new(Cursor::new({
+            let mut v = bytes.to_vec();
+            if with_sibling {
+                v.extend_from_slice(&SIBLING);
+            }
+            v
+        }));
+        cs.split = seed;
+        cs.max_chunk = max_chunk;
+        let ok = matches!(guarded(|| {
+            let h = BoxHeader::read(&mut cs)?;
+            T::read_box(&mut cs, h.size)
+        }), Ok(Ok(ref v2)) if *v2 == val);
+        d.split_ok &= ok;
+    }
     let mut out = Vec::new();
     match guarded(|| (val.write_box(&mut out), val.box_size())) {
         Ok((Ok(n), bs)) => {
@@ -276,7 +296,7 @@ pub fn run_case(case: &Value, idx: u64, out: &mut Out) {
         return;
     };
     let mut variants = Vec::new();
-    for kind in ["large", "spare", "padded"] {
+    for kind in ["large", "spare", "padded", "kids"] {
         let vb = from_bytes(&case[kind]);
         if vb.is_empty() {
             continue;
@@ -294,5 +314,6 @@ pub fn run_case(case: &Value, idx: u64, out: &mut Out) {
         "self_pos": d0.as_ref().map(|x| x.self_pos).unwrap_or(0),
         "self_len": d0.as_ref().map(|x| x.reenc.len()).unwrap_or(0),
         "built": built_type(t, exp),
+        "split_ok": d.res != "ok" || d.split_ok,
         "self_reenc": d0.as_ref().map(|x| x.reenc_res).unwrap_or("skipped")}));
 }
